@@ -4,10 +4,11 @@ from props.common import bj, pure
 LEVEL = 'other'
 CONTRACT_MODULES = ['contracts.c_dtypes']
 DEDUCTIVE = ['odml/dtypes.py::boolean_get', 'odml/dtypes.py::int_get', 'odml/dtypes.py::float_get',
-             'odml/dtypes.py::str_get', 'odml/dtypes.py::valid_type']
+             'odml/dtypes.py::str_get', 'odml/dtypes.py::valid_type',
+             {'fid': 'odml/dtypes.py::tuple_get', 'mode': 'heap'}]
 TIMEOUT_S = 15
 EXPLANATION = ('deductive (pure mode): the converters boolean_get / int_get / float_get / str_get return a value of the Python type '
-               'of their dtype for every input or raise only ValueError/TypeError/OverflowError; valid_type accepts None and the ten '
+               'of their dtype for every input or raise only ValueError/TypeError/OverflowError; tuple_get splits an n-tuple text into exactly n elements or raises ValueError; valid_type accepts None and the ten '
                'canonical names and nothing else among lower-case names except the str/bool shorthands. Bounded stand-in: the value-operation contracts (every stored value has the Python type of the dtype; refused input '
                'raises ValueError and leaves values and dtype unchanged; dtype= converts all or nothing; normal form) checked at run '
                'time on the real Property over all dtypes x value kinds x operation sequences of length <= 2 (thorough 3)')
